@@ -45,6 +45,30 @@ pub mod pure {
         crate::storage::io::verif_inflight_sim(ops)
     }
 
+    /// H12: `Record::successor_is_durable_or_deleted` on a synthetic successor chain. Each node is
+    /// (sector, refcount, index of its successor or -1, memo bit); returns the answer for
+    /// `nodes[start]` and the memo bits afterwards.
+    pub fn gate_sim(nodes: &[(u64, u32, i64, bool)], start: usize) -> (bool, Vec<bool>) {
+        use crate::core::record::Record;
+        use std::sync::atomic::Ordering;
+        use std::sync::Arc;
+        let records: Vec<Arc<Record>> = nodes
+            .iter()
+            .enumerate()
+            .map(|(i, _)| Arc::new(Record::new(format!("gate{i}").into_bytes(), vec![1], i as u64 + 1)))
+            .collect();
+        for (i, (sector, refcount, successor, safe)) in nodes.iter().enumerate() {
+            records[i].sector.store(*sector, Ordering::Release);
+            records[i].refcount.store(*refcount, Ordering::Release);
+            records[i].verif_set_successor_safe(*safe);
+            if *successor >= 0 {
+                records[i].link_successor(&records[*successor as usize]);
+            }
+        }
+        let answer = records[start].successor_is_durable_or_deleted();
+        (answer, records.iter().map(|r| r.verif_successor_safe()).collect())
+    }
+
     pub fn metadata_generation(metadata: &crate::storage::metadata::Metadata) -> u64 {
         metadata.generation()
     }
